@@ -33,7 +33,17 @@ SPECIAL_INTS = [0, 1, -1, 2, 3, 7, 10, 100, 255, 1000, 2 ** 31, 2 ** 53, 2 ** 53
 
 
 def _int_spec(i):
+    if i.bit_length() > 10000:
+        return {"t": "int", "hex": hex(i)}
     return i if abs(i) < codec.BIG else {"t": "int", "v": str(i)}
+
+
+# values whose text form fails: ints beyond the interpreter's decimal-digit limit (str/repr raise ValueError), containers nested
+# beyond the recursion limit (repr raises RecursionError)
+unprintable = st.one_of(
+    st.sampled_from([10 ** 5000, -(10 ** 5000), 10 ** 5000 + 7]).map(_int_spec),
+    st.tuples(st.sampled_from(["list", "tuple", "dict"]), st.sampled_from([1200, 3000]), st.integers(1, 3), st.sampled_from([1, "a", None])
+              ).map(lambda t: {"t": "deep", "c": t[0], "n": t[1], "w": t[2], "leaf": t[3]}))
 
 
 ints = st.one_of(st.sampled_from(SPECIAL_INTS), st.integers(-20, 20), st.integers()).map(_int_spec)
